@@ -106,3 +106,70 @@ def check_converged(reg, src, R):
         cb = to_bool(conv) if not isinstance(conv, bool) else z3.BoolVal(conv)
         ex.prove(s, ctx, e == err, "post", "error-estimate-is-max-abs-diff#%d" % k)
         ex.prove(s, ctx, cb == z3.Not(z3.And(err > rel, err < prev)), "post", "converged-iff-below-tolerance-or-stalled#%d" % k)
+
+
+def check_richardson(reg, src, R):
+    """JacobianWrapper.richardson / adaptive_richardson / __call__ on an affine map: `estimate` is replaced by the contract proved above
+    (exactly M, whatever the step), and the real extrapolation code must hand back exactly M again -- the Aitken-Neville combinations
+    have weights summing to one and never divide by zero -- for every number of Richardson levels the constructor can produce, adaptive or
+    not.  The Jacobian is carried as the flat vector of its entries (the extrapolation is element-wise)."""
+    import z3
+    from pyvc.values import Opaque
+    names = ("JacobianWrapper.richardson", "JacobianWrapper.adaptive_richardson", "JacobianWrapper.__call__")
+    for q in names:
+        R.under_contract(src.func(FU, q))
+    M = ConcVec([Poly.sym("M%d" % k) for k in range(4)])
+    for base_order in (2, 5):
+        for iters in sorted({0, 1, 2, 3, 5, 16 - base_order}):
+            for adaptive in (True, False):
+                ex = Executor(src, reg, prop=PID)
+                ex.inline.update(["JacobianWrapper.richardson", "JacobianWrapper.adaptive_richardson", "JacobianWrapper.check_converged"])
+                calls = []
+
+                def estimate(ex_, st_, ctx, args, kwargs):
+                    calls.append(kwargs.get("dy"))
+                    return M
+                ex.call_hooks["JacobianWrapper.estimate"] = estimate
+                st = State()
+                atol, rtol = z3.Real("atol"), z3.Real("rtol")
+                st.assume(atol > 0)
+                st.assume(rtol > 0)
+                selfobj = st.new_obj("JacobianWrapper", fields=dict(rhs=UFunc("aff", "opaque"), base_order=base_order, richardson_iter=iters, order=base_order + iters,
+                                                                 adaptive=adaptive, flat=False, atol=atol, rtol=rtol))
+                fi = src.func(FU, "JacobianWrapper.__call__")
+                tag = "JacobianWrapper.__call__[base_order=%d,levels=%d,%s]" % (base_order, iters, "adaptive" if adaptive else "fixed")
+                ctx = Ctx(fi, None, fi.cls, tag=tag)
+                y = ConcVec([Poly.sym("y0"), Poly.sym("y1")])
+                try:
+                    paths = ex.call_function(fi, [selfobj, y], {}, st, ctx)
+                except Unsupported as e:
+                    reg.undecided("%s/%s/executes" % (PID, tag), "unsupported", "JacobianWrapper.__call__", str(e))
+                    continue
+                pre = "%s/%s/" % (PID, tag)
+                ok_paths = [(s, v) for s, v in paths if not isinstance(v, Raised)]
+                reg.ground(pre + "returns", "post", "JacobianWrapper.__call__", len(ok_paths) == len(paths) >= 1, backend="symbolic-exec",
+                           detail="%d paths, %d raising: %r" % (len(paths), len(paths) - len(ok_paths), [v.exc for s, v in paths if isinstance(v, Raised)][:2]))
+                for k, (s, v) in enumerate(ok_paths):
+                    reg.ground(pre + "affine-exact-after-extrapolation#%d" % k, "post", "JacobianWrapper.__call__", isinstance(v, ConcVec) and list(v.items) == list(M.items),
+                               backend="poly-exact", detail="every estimate is M => the extrapolated value is M (combination weights sum to one, denominators non-zero); %d estimates used" % len(calls))
+                    f = s.obj(selfobj).fields
+                    reg.ground(pre + "wrapper-settings-untouched#%d" % k, "frame", "JacobianWrapper.__call__",
+                               f.get("base_order") == base_order and f.get("richardson_iter") == iters and f.get("adaptive") is adaptive and f.get("rhs") is not None,
+                               backend="symbolic-exec", detail="only `order` (a report of the levels used) may change")
+
+
+def check_estimate_frame(reg, src, R):
+    """JacobianWrapper.estimate keeps no state: it reads the wrapper's settings and writes no attribute of the wrapper -- nothing an earlier
+    evaluation (another point, another shape, another time) computed can reach a later one through the wrapper."""
+    import ast
+    fi = src.func(FU, "JacobianWrapper.estimate")
+    stores = []
+    for n in ast.walk(fi.node):
+        if isinstance(n, ast.Attribute) and isinstance(n.value, ast.Name) and n.value.id == "self" and isinstance(n.ctx, (ast.Store, ast.Del)):
+            stores.append("line %d: self.%s" % (n.lineno, n.attr))
+        if isinstance(n, ast.Subscript) and isinstance(n.ctx, ast.Store) and isinstance(n.value, ast.Attribute) and isinstance(n.value.value, ast.Name) and n.value.value.id == "self":
+            stores.append("line %d: self.%s[...]" % (n.lineno, n.value.attr))
+        if isinstance(n, ast.Call) and isinstance(n.func, ast.Name) and n.func.id == "setattr":
+            stores.append("line %d: setattr(...)" % n.lineno)
+    reg.ground(PID + "/JacobianWrapper.estimate/writes-no-attribute-of-the-wrapper", "frame", "JacobianWrapper.estimate", not stores, backend="ast-frame",
+               detail="attribute stores in estimate: %r" % (stores,))
